@@ -62,7 +62,7 @@ CLAUSE_DOC = {
 
 
 def _http_configs() -> list[str]:
-    return [f"http:{cap}:{comp}:{ext}" for comp in ("off", "zstd", "gzip") for ext in ("off", "low")
+    return [f"http:{cap}:{comp}:{ext}" for comp in ("off", "zstd", "gzip", "gzips") for ext in ("off", "low")
             for cap in ("none", "tiny", "large")]
 
 
@@ -97,11 +97,11 @@ def _stratified(cases: list[dict], rng, n: int) -> list[dict]:
 
 
 def _quick_cfgs(i: int) -> list[str]:
-    comps, exts = ("off", "zstd", "gzip"), ("off", "low")
+    comps, exts = ("off", "zstd", "gzip", "gzips"), ("off", "low")
     e = exts[i % 2]
     return ["pipe", ("unix", "tcp")[i % 2], "shm",
-            f"http:none:{comps[i % 3]}:{e}", f"http:tiny:{comps[(i + 1) % 3]}:{e}",
-            f"http:large:{comps[(i + 2) % 3]}:{exts[(i // 2) % 2]}"]
+            f"http:none:{comps[i % 4]}:{e}", f"http:tiny:{comps[(i + 1) % 4]}:{e}",
+            f"http:large:{comps[(i + 2) % 4]}:{exts[(i // 2) % 2]}"]
 
 
 def _corruptions(obs: dict) -> list[tuple[str, dict]]:
@@ -147,7 +147,10 @@ def _run(ctx: Ctx, pools: list) -> None:
     info = W.install_fetch_fake()
     ctx.extra["tenacity"] = info["tenacity"]
     W.warm_up()
-    nproc = 8 if ctx.quick else 14
+    # the box is shared: more workers than idle cores only adds context switches and copy-on-write faults
+    idle = (os.cpu_count() or 4) - os.getloadavg()[0] / 2
+    nproc = int(max(4, min(8 if ctx.quick else 14, idle)))
+    ctx.extra["worker_processes"] = nproc
     pool = ProcessPoolExecutor(max_workers=nproc, mp_context=get_context("fork"), initializer=W.worker_init)
     pools.append(pool)
     for f in [pool.submit(os.getpid) for _ in range(nproc * 2)]:
@@ -157,7 +160,8 @@ def _run(ctx: Ctx, pools: list) -> None:
                "in-memory ExternalStorage + fake aiohttp session behind the real fetch_url (no network)",
                "HTTP legs run in-process through make_sync_client/http_connect (httpx2 here has no zstd decoder)",
                "VGI_RPC_SHM_MIN_BATCH_BYTES=64 (documented override) so the shm-pipe leg really routes batches through shm",
-               "gzip is selected by a client that only accepts gzip (Accept-Encoding rewritten by the harness client wrapper)",
+               "compression 'gzip' = a client that only accepts gzip (Accept-Encoding rewritten by the harness client wrapper); "
+               "'gzips' = a server that negotiates only gzip (VGI_HTTP_DISABLE_ZSTD=1 while the app is built)",
                "tiny max_response_bytes = the largest hard-capped response (unary result / exchange output) the same "
                "script produced with no cap and the same externalization setting (1 when there is none)")
     ctx.rule = ("case = one execution of a TLC-enumerated (program, script) on one transport configuration; distinct = "
@@ -253,10 +257,10 @@ def _run(ctx: Ctx, pools: list) -> None:
             ext_used += r.get("externalized", 0)
             ctx.case([key, cfg], sample={"script": job["case"]["calls"], "xs": job["xs"], "configuration": cfg,
                                          "history": [{k: c[k] for k in ("res", "hdr", "data", "logs", "err", "stopped")}
-                                                     for c in r["calls"]]} if (i % 997 == 0 and cfg in ("pipe", "http:tiny:gzip:low")) else None)
+                                                     for c in r["calls"]]} if (i % 97 == 0 and cfg in ("pipe", "http:tiny:gzip:low")) else None)
             if r["status"] != "ok":
                 # harness-level fact: the client did not get through the script at all (hang / escaped exception)
-                ctx.violation("Completes", {**_family(cfg), "clause": "Completes", "status": r["status"], "kind": "-", "named": "", "generic": ""},
+                ctx.violation("Completes", {**_family(cfg), "clause": "Completes", "status": r["status"], "kind": "-", "named": "", "generic": "", "observed_error": ""},
                               {"calls": job["case"]["calls"], "xs": job["xs"], "cfg": cfg, "status": r["status"], "exc": r.get("exc"),
                                "server_died": r.get("server_died")})
                 continue
@@ -306,7 +310,9 @@ def _run(ctx: Ctx, pools: list) -> None:
                 for cfg in m["cfgs"]:
                     # named = the named deviations (Dev_ switches of the spec) that exactly explain this call's history;
                     # generic = unexplained mismatches on the same call
-                    sig = {**_family(cfg), "clause": name, "kind": call["m"]["kind"], "named": named, "generic": generic}
+                    seen_err = records[r]["obs"][k]["calls"][idx - 1]["err"] if idx >= 1 else []
+                    sig = {**_family(cfg), "clause": name, "kind": call["m"]["kind"], "named": named, "generic": generic,
+                           "observed_error": seen_err[1] if len(seen_err) > 1 else ""}
                     counts[name] = counts.get(name, 0) + 1
                     sk = jhash(sig)
                     per_sig[sk] = per_sig.get(sk, 0) + 1
